@@ -216,6 +216,7 @@ static int read_inode_slink_ext(sqfs_meta_reader_t *ir, sqfs_inode_t *base,
 	err = sqfs_meta_reader_read(ir, &xattr, sizeof(xattr));
 	if (err) {
 		free(*result);
+		*result = NULL;
 		return err;
 	}
 
